@@ -10,9 +10,9 @@ if [ ! -d $R ]; then git -C /repo worktree add --detach $R HEAD -q || exit 2; fi
 cd $R
 git checkout -q --detach $(git -C /repo rev-parse HEAD) && git checkout -- . && git clean -fdq
 git apply $d/patch.diff || { echo "patch does not apply"; exit 2; }
-mkdir -p /tmp/detect_verif; cp /verif/known_findings.json /tmp/detect_verif/; : > $d/detect.log
+DV=${DETECT_VERIF:-/tmp/detect_verif}; mkdir -p $DV; cp /verif/known_findings.json $DV/; : > $d/detect.log
 for p in $props; do
-  VERIF_REPO=$R VERIF_DIR=/tmp/detect_verif /verif/bin/gbverif check $p 2>&1 | grep -E "^(VIOLATION|KNOWN-FINDING|C[0-9]+ tier)" | sed "s#/tmp/detect_verif#/verif#" >> $d/detect.log
+  VERIF_REPO=$R VERIF_DIR=$DV /verif/bin/gbverif check $p 2>&1 | grep -E "^(VIOLATION|KNOWN-FINDING|C[0-9]+ tier)" | sed "s#$DV#/verif#" >> $d/detect.log
 done
 git checkout -- .
 n=$(grep -c "^VIOLATION" $d/detect.log)
